@@ -85,7 +85,7 @@ macro_rules! h_copy_range_se {
             w!(n == $e, "range ends at len");
             w!($e == $max || (n > $e && ra.v.bit($e)), "source bit just above the range is set (unless the range ends at the storage end)");
             w!($e == $s || ra.v.bit(($e as usize).wrapping_sub(1)), "top bit of the range set (unless the range is empty)");
-            w!($e == $max || ra.cap >= n + 64, "source has a spare word (unless the range ends at the storage end)");
+            w!($e + 64 > $max || ra.cap >= n + 64, "source has a spare word (unless the range ends in the last storage word)");
             let r = a.copy_range($s..$e);
             let r = r.into_raw();
             assert!(r.len == $e - $s, "C08: copy_range length != e - s");
@@ -107,7 +107,7 @@ macro_rules! h_copy_range_bv_se {
             w!(n == $e, "range ends at len");
             w!($e == $max || (n > $e && ra.v.bit($e)), "source bit just above the range is set (unless the range ends at the storage end)");
             w!($e > 128 || n <= 128, "heap source short enough for inline storage (when the range allows)");
-            w!($e == $max || n > 128, "source longer than the inline limit");
+            w!($max <= 128 || $e == $max || n > 128, "source longer than the inline limit (when the storage and the range allow)");
             let r = a.copy_range($s..$e);
             w!(is_fixed(&r) == ($e - $s <= 128), "slice is inline exactly when it fits in 128 bits");
             let r = r.into_raw();
@@ -242,7 +242,6 @@ h_split!(c08_q_split_f8x2, 6, f8x2(anylen(16)), 8);
 h_split!(c08_q_split_f8x3, 7, f8x3(anylen(24)), 8);
 h_split!(c08_q_split_f16x2, 7, f16x2(anylen(32)), 16);
 h_split!(c08_t_split_f64x2, 19, f64x2(anylen(128)), 64);
-h_split!(c08_t_split_bvfix, 19, bvfix(anylen(128)), 64);
 
 h_first_last!(c08_q_firstlast_f8x2, 3, f8x2(anylen(16)));
 h_first_last!(c08_q_firstlast_f8x3, 3, f8x3(anylen(24)));
@@ -354,5 +353,18 @@ h_split_off_ni!(c08_q_splitoff_bvdyn3_n192_i192, 5, bvdyn3, 192, 192);
 h_split_off_ni!(c08_q_splitoff_bvdyn3_n129_i0, 5, bvdyn3, 129, 0);
 h_split_ni!(c08_q_split_bvdyn3_n192_i64, 5, bvdyn3, 192, 64);
 h_split_ni!(c08_q_split_bvdyn3_n129_i1, 5, bvdyn3, 129, 1);
-h_rejoin_ni!(c08_q_rejoin_bvdyn3_n192_i64, 5, bvdyn3, 192, 64);
-h_rejoin_ni!(c08_q_rejoin_bvdyn3_n150_i30, 5, bvdyn3, 150, 30);
+
+// ---- Bv inline: split_off / split go through Bv::resize, whose (dead) promotion branch allocates
+// by length, so the lengths are concrete here as well
+h_split_off_ni!(c08_q_splitoff_bvfix_n128_i64, 5, bvfix, 128, 64);
+h_split_off_ni!(c08_q_splitoff_bvfix_n128_i0, 5, bvfix, 128, 0);
+h_split_off_ni!(c08_q_splitoff_bvfix_n128_i128, 5, bvfix, 128, 128);
+h_split_off_ni!(c08_q_splitoff_bvfix_n100_i37, 5, bvfix, 100, 37);
+h_split_off_ni!(c08_q_splitoff_bvfix_n0_i0, 5, bvfix, 0, 0);
+h_split_off_ni!(c08_t_splitoff_bvfix_n65_i64, 5, bvfix, 65, 64);
+h_split_off_ni!(c08_t_splitoff_bvfix_n127_i1, 5, bvfix, 127, 1);
+h_split_ni!(c08_q_split_bvfix_n128_i65, 5, bvfix, 128, 65);
+h_split_ni!(c08_q_split_bvfix_n9_i9, 5, bvfix, 9, 9);
+h_rejoin_ni!(c08_q_rejoin_bvfix_n128_i64, 20, bvfix, 128, 64);
+h_rejoin_ni!(c08_q_rejoin_bvfix_n100_i37, 20, bvfix, 100, 37);
+h_rejoin_ni!(c08_t_rejoin_bvfix_n128_i1, 20, bvfix, 128, 1);
